@@ -865,10 +865,11 @@ def _run_url_vars(rng, scale, driver, out):
                 seen.add(d["name"])
                 dd.append(d)
         order = list(extract_url_variables(path))     # the iteration order of an equal set in this process
+        rng.shuffle(order)                            # ... or any other: since the repair of F18 the code sorts the set
         pmap = {d["name"]: d for d in dd}
         got = EndpointParameterProcessor()._ensure_path_variables_as_params(types.SimpleNamespace(path=path), list(dd), pmap)
         got.sort(key=lambda p: not p["required"])     # parameter_processor.py:136
-        reqs.append(("finalParams", [[d["name"], d["required"], d["original_name"]] for d in dd], order))
+        reqs.append(("codeParams", [[d["name"], d["required"], d["original_name"]] for d in dd], order))
         impls.append([[p["name"], p["required"], p["original_name"]] for p in got])
     res = _drive(driver, reqs)
     for q, impl, m in zip(reqs, impls, res):
@@ -876,7 +877,7 @@ def _run_url_vars(rng, scale, driver, out):
         if len(impl) > len(q[1]):
             out["nontrivial_keys"].add("params:" + json.dumps(q[1:]))
         if m != impl:
-            out["disagreements"].append({"label": "finalParams", "request": q[1:], "model": m, "impl": impl})
+            out["disagreements"].append({"label": "codeParams", "request": q[1:], "model": m, "impl": impl})
     # the de-duplication pass applied twice (what the force path does)
     from pyopenapi_gen.emitters.endpoints_emitter import EndpointsEmitter
     idpool = ["foo", "foo_2", "Foo", "bar", "foo_2_2", "get-x", "get_x"]
